@@ -5,7 +5,12 @@ namespace ExoVerif.Oracle
 
 /-- single.go: the replay window arithmetic, the per-block replay order (prepare → messages → seal)
 and the fields a replayed message is rebuilt from (validator, feeder, sources — no nonce, no base
-block) are still as transcribed by `recacheAgc` / `replayLoop` / `replayMsgs`. -/
-theorem C14_tie_recache_shape : ExoVerif.Gen.oracleRecacheShape.length = 9 := by decide
+block), the window taken from the stored params (F-14f) and the round rebuild of the `from >= to`
+branch (F-14c) are still as transcribed by `recacheAgc` / `replayLoop` / `replayMsgs`. -/
+theorem C14_tie_recache_shape : ExoVerif.Gen.oracleRecacheShape.length = 11 := by decide
+
+/-- caches.go: cacheMsgs.commit prunes below `oldest`, which is `block − MaxNonce` only when
+`block > MaxNonce` (F-14d repair; `commitMsgs` in the model uses the saturating subtraction). -/
+theorem C14_tie_cache_commit_shape : ExoVerif.Gen.oracleCacheCommitShape.length = 3 := by decide
 
 end ExoVerif.Oracle
